@@ -378,15 +378,8 @@ func (db *Database) processPostingsForTerm(
 	for _, p := range postings {
 		doc := &db.Commands[p.docID]
 
-		// Platform filtering (skip if AllPlatforms is enabled)
-		if !options.AllPlatforms && len(doc.Platform) > 0 {
-			if !isPlatformCompatible(doc.Platform, currentPlatform) && !isCrossPlatformTool(doc.Command) {
-				continue
-			}
-		}
-
-		// Pipeline filtering
-		if options.PipelineOnly && !isPipelineCommand(doc) {
+		// Platform and pipeline filtering
+		if !passesFilters(doc, options, currentPlatform) {
 			continue
 		}
 
@@ -577,6 +570,58 @@ func (idx *universalIndex) fieldBM25(tf, dl, avgdl, w, b float64) float64 {
 func bm25IDF(n, df int) float64 {
 	// Okapi BM25 idf with 0.5 adjustments
 	return math.Log((float64(n)-float64(df)+0.5)/(float64(df)+0.5) + 1)
+}
+
+// passesFilters applies the platform and pipeline filters of a search to one command.
+// It is shared by the index search and the typo fallback so that both give the same guarantee.
+func passesFilters(cmd *Command, options SearchOptions, currentPlatform string) bool {
+	if options.PipelineOnly && !isPipelineCommand(cmd) {
+		return false
+	}
+	if options.AllPlatforms || len(cmd.Platform) == 0 {
+		return true
+	}
+	// Platforms in force: the ones asked for, otherwise the host
+	inForce := options.Platforms
+	if len(inForce) == 0 {
+		inForce = []string{currentPlatform}
+	}
+	for _, want := range inForce {
+		if declaresPlatform(cmd.Platform, normalizePlatformName(want)) {
+			return true
+		}
+	}
+	if options.NoCrossPlatform {
+		return false
+	}
+	for _, p := range cmd.Platform {
+		if strings.EqualFold(p, "cross-platform") {
+			return true
+		}
+	}
+	return isCrossPlatformTool(cmd.Command)
+}
+
+// normalizePlatformName maps the spellings a user may pass to --platform onto the names used by the database.
+func normalizePlatformName(name string) string {
+	n := strings.ToLower(strings.TrimSpace(name))
+	switch n {
+	case "darwin", "osx", "mac":
+		return constants.PlatformMacOS
+	case "win":
+		return constants.PlatformWindows
+	}
+	return n
+}
+
+// declaresPlatform reports whether one of the declared platforms is want or a known variant of it.
+func declaresPlatform(platforms []string, want string) bool {
+	for _, p := range platforms {
+		if strings.EqualFold(p, want) || checkPlatformVariant(p, want) {
+			return true
+		}
+	}
+	return false
 }
 
 func isPlatformCompatible(platforms []string, current string) bool {
